@@ -525,6 +525,14 @@ def gen_program(st, flavour, tier):
         case["pre_eval_group"] = True
         case["targets"] = None
         case["graph_drop"] = []
+    if flavour in ("C04", "C01") and n > 2:
+        # a long-lived process: before the evaluation under test somebody computed and ordered the sub-graphs of PART of
+        # the program (what insights-info, the shell's model listing and query.dry_run do with dr.run_order); nothing is
+        # executed by that, and nothing may be different afterwards.  (Own PRNG: older cases stay what they were.)
+        from simkit.seeds import h64
+        rpre = random.Random(h64(st.seed, "prelude"))
+        if rpre.random() < 0.2:
+            case["prelude"] = sorted(rpre.sample(range(n), rpre.randint(1, n - 1)))
     for o in range(rk.choice([0, 1, 2, 3]) if fl["observers"] else 0):
         case["observers"].append({"name": "o%d" % o, "h": rk.getrandbits(40),
                                   "on": rk.choice(["all", "all", "rule", "datasource", "parser", "plugin"]),
@@ -1436,6 +1444,17 @@ def execute_once(case, driver):
             world.make_observers()
             world.build()
             graph = world.graph()
+            if case.get("prelude"):
+                sub = dict((world.objs[i], dr.get_dependencies(world.objs[i])) for i in case["prelude"]
+                           if i < len(world.objs) and world.objs[i] in graph)
+                if sub:
+                    try:
+                        for g in dr.get_subgraphs(sub):
+                            dr.run_order(g)
+                    except Exception:
+                        pass
+                    world.fired("prelude_partial_graph_ordered")
+                    graph = world.graph()
             r = Run()
             r.world = world
             r.graph_names = sorted(cname(k) for k in graph)
